@@ -34,35 +34,37 @@ Definition as_int (v : value) : res Z := match v with VInt z => Ok z | _ => Err 
 
 (* kinds: 1 method of S on s1; 2 method of R on r2 (takes and returns r1); 3 global function;
           4 initializer of S; 5 initializer of R *)
-Definition run_case (fuel : nat) (kind : nat) (P : prog) : res (Z * state) :=
+(* result, final state, and the cell of the resource that the driver observes as `r1` afterwards
+   (kind 2: the resource the method returned) *)
+Definition run_case (fuel : nat) (kind : nat) (P : prog) : res (Z * state * nat) :=
   match kind with
   | 1%nat =>
       match find_method P 9 with
       | Some fd => match call fuel P fd (Some (6%nat, [])) test_args init_state with
-                   | Ok (v, st) => match as_int v with Ok z => Ok (z, st) | Err e => Err e end
+                   | Ok (v, st) => match as_int v with Ok z => Ok (z, st, 9%nat) | Err e => Err e end
                    | Err e => Err e end
       | None => Err Internal end
   | 2%nat =>
       match find_method P 9 with
       | Some fd => match call fuel P fd (Some (10%nat, [])) (test_args ++ [VRes 9]) init_state with
-                   | Ok (VRes _, st) => Ok (0, st)
+                   | Ok (VRes l, st) => Ok (0, st, l)
                    | Ok _ => Err Internal
                    | Err e => Err e end
       | None => Err Internal end
   | 3%nat =>
       match find_global P 9 with
       | Some fd => match call fuel P fd None test_args init_state with
-                   | Ok (v, st) => match as_int v with Ok z => Ok (z, st) | Err e => Err e end
+                   | Ok (v, st) => match as_int v with Ok z => Ok (z, st, 9%nat) | Err e => Err e end
                    | Err e => Err e end
       | None => Err Internal end
   | 4%nat =>
       match construct fuel P KS [VInt 81; ints [1; 2]; VArr [s2v]; VArr [VRef 5 []]; VDict [(3, 4)]; VInt 1] init_state with
-      | Ok (VComp KS (VInt z :: _), st) => Ok (z, st)
+      | Ok (VComp KS (VInt z :: _), st) => Ok (z, st, 9%nat)
       | Ok _ => Err Internal
       | Err e => Err e end
   | 5%nat =>
       match construct fuel P KR [VInt 91; ints [6; 7]; VArr [VRes 9]; VInt 1] init_state with
-      | Ok (VRes l, st) => match read_lv st (l, [PF 0%nat]) with Ok (VInt z) => Ok (z, st) | Ok _ => Err Internal | Err e => Err e end
+      | Ok (VRes l, st) => match read_lv st (l, [PF 0%nat]) with Ok (VInt z) => Ok (z, st, 9%nat) | Ok _ => Err Internal | Err e => Err e end
       | Ok _ => Err Internal
       | Err e => Err e end
   | _ => Err Internal
@@ -83,7 +85,7 @@ Definition leni (st : state) (l : nat) (p : path) : Z :=
   end.
 Definition firsti (st : state) (l : nat) (p : path) : Z := geti st l (p ++ [PI 0%nat]).
 
-Definition observe_state (st : state) : list Z :=
+Definition observe_state (st : state) (r1 : nat) : list Z :=
   [ geti st 0 []; geti st 1 [PK 1]; leni st 1 []; leni st 2 []; firsti st 2 [] ]
   ++ match sto_lookup st 0 with
      | Some l => [ geti st l [PK 1]; geti st l [PK 5]; leni st l [] ]
@@ -96,7 +98,7 @@ Definition observe_state (st : state) : list Z :=
   ++ [ geti st 6 [PF 0%nat]; leni st 6 [PF 1%nat]; firsti st 6 [PF 1%nat]; leni st 6 [PF 2%nat];
        geti st 6 [PF 2%nat; PI 0%nat; PF 0%nat]; leni st 6 [PF 3%nat]; geti st 6 [PF 4%nat; PK 1]; leni st 6 [PF 4%nat] ]
   ++ [ leni st 7 []; firsti st 7 []; geti st 8 [PK 1]; leni st 8 [] ]
-  ++ [ geti st 9 [PF 0%nat]; leni st 9 [PF 1%nat]; geti st 9 [PF 3%nat] ]
+  ++ [ geti st r1 [PF 0%nat]; leni st r1 [PF 1%nat]; geti st r1 [PF 3%nat] ]
   ++ [ geti st 10 [PF 0%nat]; leni st 10 [PF 1%nat]; leni st 10 [PF 2%nat];
        match read_lv st (10%nat, [PF 2%nat; PI 0%nat]) with Ok (VRes l) => geti st l [PF 0%nat] | _ => -1 end;
        geti st 10 [PF 3%nat] ]
@@ -160,8 +162,8 @@ Definition check_case (c : nat * prog * list nat * option (res Z * list Z * list
       match lines with
       | [] =>
         match run_case case_fuel kind P, r with
-        | Ok (z, st), Ok z' =>
-            Z.eqb z z' && zlist_eqb (observe_state st) after && zlist_eqb (map snd (evs st)) events
+        | Ok (z, st, r1), Ok z' =>
+            Z.eqb z z' && zlist_eqb (observe_state st r1) after && zlist_eqb (map snd (evs st)) events
             (* a changed stored value implies ledger writes (an identity write such as `C.garr = C.garr`
                also writes: the converse is checked directly by the harness for functions accepted as view) *)
             && implb (storage_changed st) wrote
